@@ -81,7 +81,7 @@ checks = {
    technique="stateless DFS over goroutine schedules with preemption/deviation bounding on the rewritten real code + exhaustive codec product"),
  "C19": dict(engine=EF, design="§3 E-F, §4 C19",
    text="Explicit-state BFS over all interleavings of two real procedures under step control on real replicas: the new volume's Controller.Start (attaches the clone and polls its clone status while holding the controller lock; every poll is a gate) and the clone process's start-up tail (status inProgress -> real app.CloneReplica / sync.Task.CloneReplica: list source replicas, set rebuilding, copy the chain from S downward, update clone info, reload, UpdateLUNMap, clear rebuilding -> status completed/error; every HTTP step is a gate), for every snapshot S of the source history, with source-side writes during the copy, a source outage, and a killed and restarted clone process: the clone is RW in the new volume only when its status is completed/NA, whenever it reports completed its image equals the source's revert-on-copy image of S and its revision counter is the one recorded for S, a failed clone reports error and is not RW.",
-   note="app.startReplica's status bracket (an unexported CLI action that listens on sockets) is re-stated in the harness (eb/clone.go); the sync-agent is the in-process stand-in of C07. RF=1 for both volumes, 4-block volume.",
+   note="app.startReplica is an unexported CLI action that listens on sockets: its clone status bracket (the statement `if replicaType == \"clone\" ...`) is extracted VERBATIM from the repository's current app/replica.go by tools/gen into a generated function that the clone task runs; the sync-agent is the in-process stand-in of C07. RF=1 for both volumes, 4-block volume.",
    technique="explicit-state BFS over gate-by-gate interleavings of the real clone task and the real controller start on real replicas"),
  "C08": dict(engine=EC, design="§3 E-C, §4 C08", level="fault_enumeration",
    text="For every (pre-state, operation) pair of a bounded set, a ptrace tracer stops the real replica process at the entry of every file-system call of the operation: the directory as it is at each boundary is copied (= process death there), reopened with the real code and compared with the reference (chain before or after, acknowledged bytes, retained snapshots by revert-on-copy, revision counter); every single call is also made to fail with ENOSPC/EIO and the reported outcome is compared with the reopened state; the call trace of every successful operation is linted for directory fsync after namespace changes and synced metadata.",
